@@ -623,6 +623,59 @@ def run(check, mirror, tier):
                                  describe=lambda m, v: {"nanoseconds": model_value(m, v["nanoseconds"])},
                                  prefer=lambda v: z3.And(v["nanoseconds"] % 10 ** 6 == 0, v["nanoseconds"] > -10 ** 16, v["nanoseconds"] < 10 ** 16)))
 
+    # --- O4d: years-and-months durations: text form (normalised, same value, no panic for any i64) and absolute value -------------------
+    def setup_ym_print(ex, st):
+        n = ex.fresh_int(st, "i64", "months")
+        d = Adt("struct", "FeelYearsAndMonthsDuration", (n,))
+        fc = ex.new_cell(st, Opaque("Formatter", info=()))
+        return "<FeelYearsAndMonthsDuration as Display>::fmt", [Ref(ex.new_cell(st, d)), Ref(fc)], dict(months=n.e, _fmt_cell=fc)
+
+    def post_ym_print(ex, o, v):
+        pieces = o.st.cells[v["_fmt_cell"]].info
+        toks = []
+        for p in pieces:
+            if p[0] == "lit":
+                toks += [("ch", c) for c in p[1]]
+            elif p[0] == "arg" and p[1] == "display" and isinstance(p[2], StrV) and p[2].const is not None:
+                toks += [("ch", c) for c in p[2].const]
+            elif p[0] == "arg" and p[1] == "display" and isinstance(p[2], Sc) and not (p[3] or {}).get("width"):
+                toks.append(("int", p[2].e))
+            else:
+                return [("the duration prints as sign, P, years, months", z3.BoolVal(False))]
+        i, neg, comp = 0, False, {}
+        if i < len(toks) and toks[i] == ("ch", "-"):
+            neg, i = True, i + 1
+        okg = i < len(toks) and toks[i] == ("ch", "P")
+        i += 1
+        for unit in ("Y", "M"):
+            if okg and i + 1 < len(toks) and toks[i][0] == "int" and toks[i + 1] == ("ch", unit):
+                comp[unit] = toks[i][1]
+                i += 2
+            elif okg and unit == "M" and not comp and i + 1 < len(toks) and toks[i] == ("ch", "0") and toks[i + 1] == ("ch", "M"):
+                comp["M"] = z3.IntVal(0)
+                i += 2
+        if not (okg and i == len(toks) and comp):
+            return [("the duration prints as sign, P, years, months", z3.BoolVal(False))]
+        g = lambda k: comp.get(k, z3.IntVal(0))
+        total = g("Y") * 12 + g("M")
+        return [("the printed text denotes exactly the duration (sign included)", (z3.IntVal(-1) * total if neg else total) == v["months"]),
+                ("the printed form is normalised: months < 12, no zero component written except P0M",
+                 z3.And([g("M") < 12, g("M") >= 0, g("Y") >= 0] + [comp[k] >= 1 for k in comp if not (k == "M" and len(comp) == 1)])),
+                ("reach:years_and_months", z3.BoolVal(len(comp) == 2))]
+
+    def replay_ym_print(i, rb):
+        n = i["months"]
+        lit = "%sP%dM" % ("-" if n < 0 else "", abs(n))
+        _, out, _ = replay_call(rb, ["feel", 'string(duration("%s"))' % lit])
+        if out.startswith("PANIC"):
+            return True, 'string(duration("%s")) -> %s' % (lit, out[:80])
+        txt = out[6:].strip().strip('"') if out.startswith("VALUE ") else out
+        _, back, _ = replay_call(rb, ["feel", 'duration("%s") = duration("%s")' % (txt, lit)])
+        return back.strip() != "VALUE true", 'string(duration("%s")) = %s; read back equal -> %s' % (lit, txt, back[:60])
+    jobs.append(lambda c: decide(c, crate, "ym_duration_display", setup_ym_print, post_ym_print, lambda i, rb: replay_ym_print({k: v for k, v in i.items() if not k.startswith("_")}, rb), rb,
+                                 enums=ENUMS, models=MODELS, min_paths=4, need_reach=["reach:years_and_months"], known_predicates=KNOWN_PRED, max_cex=3,
+                                 describe=lambda m, v: {"months": model_value(m, v["months"])}))
+
     # --- O5: FeelDate::try_from(&str) ------------------------------------------------------------
     ysh = shapes["year"]
     for yk in range(ysh[1], (ysh[2] or 9) + 1):
